@@ -59,8 +59,9 @@ type pelem struct {
 	Kind int  `json:"kind"`
 	Tags int  `json:"tags"` // bit mask over the case's tag universe
 	Prop int  `json:"prop"`
-	Rel  int  `json:"rel"`  // -1 none, else index of another element of the same POST to form a mutual pair with
-	RelT int  `json:"relt"` // relationship type of this side; the other side gets RelT+1
+	Rel  int  `json:"rel"`            // -1 none, else index of another element of the same POST to form a mutual pair with
+	RelT int  `json:"relt"`           // relationship type of this side; the other side gets RelT+1
+	RelN int  `json:"reln,omitempty"` // 0/1: one relationship per direction; 2-3: that many of different Rel kinds per direction
 }
 
 type aop struct {
@@ -68,6 +69,7 @@ type aop struct {
 	Elems     []pelem `json:"elems,omitempty"`
 	E         int     `json:"e,omitempty"`         // element operand
 	Partnered bool    `json:"partnered,omitempty"` // prefer an element that has a partner
+	Multi     bool    `json:"multi,omitempty"`     // prefer an element some partner holds >=2 relationships to
 	Dest      int     `json:"dest,omitempty"`      // move destination mode
 	At        ppos    `json:"at"`
 	A         int     `json:"a,omitempty"`
@@ -311,10 +313,21 @@ func (m *machine) free(n *vnode, p [3]int32, excl map[[3]int32]bool) [3]int32 {
 }
 
 // pick chooses an element operand; with partnered it prefers elements that have relationships.
-func (m *machine) pick(n *vnode, e int, partnered bool) ([3]int32, bool) {
+func (m *machine) pick(n *vnode, e int, partnered bool, multi ...bool) ([3]int32, bool) {
 	ps := n.es.Positions()
 	if len(ps) == 0 {
 		return [3]int32{}, false
+	}
+	if len(multi) > 0 && multi[0] {
+		var wm [][3]int32
+		for _, p := range ps {
+			if mu, _, _ := partnerShape(n.es, p); mu {
+				wm = append(wm, p)
+			}
+		}
+		if len(wm) > 0 {
+			return wm[mod(e, len(wm))], true
+		}
 	}
 	if partnered {
 		var wp [][3]int32
@@ -363,6 +376,51 @@ func related(a, b model.AnnElem) bool {
 		}
 	}
 	return false
+}
+
+// link makes a and b reference each other with k (1..3) relationships of different kinds per direction.
+func link(a, b *model.AnnElem, relT, k int) {
+	if k < 1 {
+		k = 1
+	}
+	if k > 3 {
+		k = 3
+	}
+	for j := 0; j < k; j++ {
+		a.Rels = append(a.Rels, model.AnnRel{Rel: relTypes[mod(relT+j, len(relTypes))], To: b.Pos})
+		b.Rels = append(b.Rels, model.AnnRel{Rel: relTypes[mod(relT+1+j, len(relTypes))], To: a.Pos})
+	}
+}
+
+// relsTo counts the relationships of e that point to p.
+func relsTo(e model.AnnElem, p [3]int32) int {
+	c := 0
+	for _, r := range e.Rels {
+		if r.To == p {
+			c++
+		}
+	}
+	return c
+}
+
+// partnerShape describes how the partners of the element at p refer to it: multi = some partner holds >=2 relationships
+// to p; multiCross = such a partner lives in another block; partners = number of distinct partners.
+func partnerShape(es *model.AnnSet, p [3]int32) (multi, multiCross bool, partners int) {
+	seen := map[[3]int32]bool{}
+	for _, r := range es.E[p].Rels {
+		if seen[r.To] {
+			continue
+		}
+		seen[r.To] = true
+		partners++
+		if q, ok := es.E[r.To]; ok && relsTo(q, p) >= 2 {
+			multi = true
+			if model.BlockOfPos(r.To, blockEdge) != model.BlockOfPos(p, blockEdge) {
+				multiCross = true
+			}
+		}
+	}
+	return
 }
 
 // elementsOnBody counts model elements per body at node n.
@@ -434,6 +492,9 @@ func (m *machine) buildPost(n *vnode, o aop) (list []model.AnnElem, tag string) 
 			}
 			if newKind != e.Kind {
 				kindChange = true
+				if m.bodyAt(n, e.Pos) != 0 {
+					m.cls["overwrite/kind-change-on-body"] = true
+				}
 			}
 		} else {
 			nNew++
@@ -457,8 +518,7 @@ func (m *machine) buildPost(n *vnode, o aop) (list []model.AnnElem, tag string) 
 		if a == b || related(list[a], list[b]) || related(list[b], list[a]) {
 			continue
 		}
-		list[a].Rels = append(list[a].Rels, model.AnnRel{Rel: relTypes[mod(pe.RelT, len(relTypes))], To: list[b].Pos})
-		list[b].Rels = append(list[b].Rels, model.AnnRel{Rel: relTypes[mod(pe.RelT+1, len(relTypes))], To: list[a].Pos})
+		link(&list[a], &list[b], pe.RelT, pe.RelN)
 	}
 	m.fixTagDrop(n, list)
 	tag = "post/new"
@@ -705,7 +765,7 @@ func (m *machine) apply(i int, o aop) (tag string, err error) {
 		return "post/drop-and-add-tag", nil
 
 	case "delete":
-		p, ok := m.pick(n, o.E, o.Partnered)
+		p, ok := m.pick(n, o.E, o.Partnered, o.Multi)
 		if !ok {
 			return "", nil
 		}
@@ -713,6 +773,7 @@ func (m *machine) apply(i int, o aop) (tag string, err error) {
 		if len(n.es.E[p].Rels) > 0 {
 			tag = "delete/with-partner"
 		}
+		delMulti, delMultiCross, delPartners := partnerShape(n.es, p)
 		r := drive.Delete(m.an(n, "element/"+p3(p)))
 		if err := m.bad(r, "DELETE-element", what); err != nil {
 			return tag, err
@@ -724,16 +785,26 @@ func (m *machine) apply(i int, o aop) (tag string, err error) {
 			m.cls["delete/with-partner"] = true
 			m.ntPartner = true
 		}
+		if delMulti {
+			m.cls["delete/multi-relationship-pair"] = true
+		}
+		if delMultiCross {
+			m.cls["delete/multi-relationship-pair/cross-block"] = true
+		}
+		if delPartners >= 2 {
+			m.cls["delete/multi-partner"] = true
+		}
 		n.es.Delete(p)
 		m.applied["delete"]++
 		return tag, nil
 
 	case "move":
-		from, ok := m.pick(n, o.E, o.Partnered)
+		from, ok := m.pick(n, o.E, o.Partnered, o.Multi)
 		if !ok {
 			return "", nil
 		}
 		e := n.es.E[from]
+		mvMulti, mvMultiCross, mvPartners := partnerShape(n.es, from)
 		fromBlk := model.BlockOfPos(from, blockEdge)
 		fromBody := m.bodyAt(n, from)
 		in := [3]int32{int32(mod(int(o.At.In[0]), blockEdge)), int32(mod(int(o.At.In[1]), blockEdge)), int32(mod(int(o.At.In[2]), blockEdge))}
@@ -818,6 +889,18 @@ func (m *machine) apply(i int, o aop) (tag string, err error) {
 		}
 		if toBody != fromBody && toBody != 0 && fromBody != 0 {
 			m.cls["move/onto-other-body"] = true
+		}
+		if tag == "move/same-body" {
+			m.cls["move/same-body"] = true
+		}
+		if mvMulti {
+			m.cls["move/multi-relationship-pair"] = true
+		}
+		if mvMultiCross {
+			m.cls["move/multi-relationship-pair/cross-block"] = true
+		}
+		if mvPartners >= 2 {
+			m.cls["move/multi-partner"] = true
 		}
 		if len(e.Rels) > 0 {
 			m.cls["move/with-partner"] = true
@@ -923,8 +1006,7 @@ func (m *machine) applyBlocks(n *vnode, o aop, what string) (string, error) {
 		if a == b || related(content[a], content[b]) {
 			continue
 		}
-		content[a].Rels = append(content[a].Rels, model.AnnRel{Rel: relTypes[mod(pe.RelT, len(relTypes))], To: content[b].Pos})
-		content[b].Rels = append(content[b].Rels, model.AnnRel{Rel: relTypes[mod(pe.RelT+1, len(relTypes))], To: content[a].Pos})
+		link(&content[a], &content[b], pe.RelT, pe.RelN)
 	}
 	check, lowmem := o.Check, o.LowMem
 	if check && m.steer("reload-check") {
@@ -1781,8 +1863,21 @@ func checkC13(c c13Case) (outcome, error) {
 			return fin(), err
 		}
 		m.pending, m.pendingSz = false, false
-		// border / outside classes from the model state
+		// relationship-shape, border and outside classes from the model state
 		for p := range m.cur().es.E {
+			if mu, cross, partners := partnerShape(m.cur().es, p); mu || partners >= 2 {
+				if mu {
+					m.cls["rels/multi-relationship-pair"] = true
+					if cross {
+						m.cls["rels/multi-relationship-pair/cross-block"] = true
+					} else {
+						m.cls["rels/multi-relationship-pair/same-block"] = true
+					}
+				}
+				if partners >= 2 {
+					m.cls["rels/multi-partner"] = true
+				}
+			}
 			for a := 0; a < 3; a++ {
 				r := mod(int(p[a]), blockEdge)
 				if r == 0 || r == blockEdge-1 {
@@ -1861,6 +1956,7 @@ func genElem(t *rapid.T, ntags int, label string) pelem {
 		e.Rel = rapid.IntRange(0, 5).Draw(t, label+"rel")
 	}
 	e.RelT = rapid.IntRange(0, 4).Draw(t, label+"relt")
+	e.RelN = rapid.SampledFrom([]int{1, 1, 1, 2, 2, 3}).Draw(t, label+"reln")
 	return e
 }
 
@@ -1947,8 +2043,10 @@ func genC13(t *rapid.T) c13Case {
 			}
 		case "delete":
 			o.Partnered = rapid.IntRange(0, 2).Draw(t, "partnered") > 0
+			o.Multi = rapid.IntRange(0, 1).Draw(t, "multi") > 0
 		case "move":
 			o.Partnered = rapid.IntRange(0, 2).Draw(t, "partnered") > 0
+			o.Multi = rapid.IntRange(0, 2).Draw(t, "multi") == 0
 			o.Dest = rapid.SampledFrom([]int{0, 0, 1, 1, 2, 2, 2, 3, 3, 4, 4, 5}).Draw(t, "dest")
 		case "blocks":
 			for j := rapid.IntRange(0, 3).Draw(t, "nbel"); j > 0; j-- {
